@@ -76,6 +76,12 @@ def run(ctx):
                     pass
         ctx.cov.update(evaluations=acc["evaluations"], distinct_nontrivial=acc["distinct_nontrivial"], samples=acc["samples"],
                        distribution=acc["distribution"], exhaustive=False)
+        if not ctx.replay:
+            w = [k for k in acc["distribution"] if k.startswith("witness-names:")]
+            ok = w == ["witness-names:a.go,a_1.go,a_1.go"]
+            ctx.obligation("negative-witness-reproduces-on-implementation(Props.C12.names_unique_false)", ok,
+                           "" if ok else "implementation answered %s for Feed[a.go:X, a_1.go:X, a.go:Y]; if the rename defect was repaired, "
+                           "update FileManager.probe as described in docs/C12.md (then names_unique holds in full)" % w)
         for f in (acc.get("oracle_failures") or []):
             ctx.add_violation(f["key"], f["what"], f["input"], f["expected"], f["observed"])
     if ctx.replay:
